@@ -73,6 +73,14 @@ pub enum AsmMnemonic {
     NOP,
 }
 
+/// An immediate operand spelled "#" followed by decimal digits only
+fn is_plain_number(operand: &str) -> bool {
+    match operand.strip_prefix('#') {
+        Some(d) => !d.is_empty() && d.chars().all(|c| c.is_ascii_digit()),
+        None => false,
+    }
+}
+
 impl AsmMnemonic {
     /// True when the instruction sets both N and Z whatever they were before
     fn defines_nz(&self) -> bool {
@@ -506,7 +514,13 @@ impl AssemblyCode {
                                     }
                                 }
                                 AsmMnemonic::BEQ => {
-                                    if *r != i1.dasm_operand && !i2.protected {
+                                    // Different texts are different values only for plain
+                                    // numbers (#<v and #129 may well be equal)
+                                    if *r != i1.dasm_operand
+                                        && is_plain_number(r)
+                                        && is_plain_number(&i1.dasm_operand)
+                                        && !i2.protected
+                                    {
                                         remove_both = true;
                                     }
                                 }
@@ -527,7 +541,13 @@ impl AssemblyCode {
                                     }
                                 }
                                 AsmMnemonic::BEQ => {
-                                    if *r != i1.dasm_operand && !i2.protected {
+                                    // Different texts are different values only for plain
+                                    // numbers (#<v and #129 may well be equal)
+                                    if *r != i1.dasm_operand
+                                        && is_plain_number(r)
+                                        && is_plain_number(&i1.dasm_operand)
+                                        && !i2.protected
+                                    {
                                         remove_both = true;
                                     }
                                 }
@@ -548,7 +568,13 @@ impl AssemblyCode {
                                     }
                                 }
                                 AsmMnemonic::BEQ => {
-                                    if *r != i1.dasm_operand && !i2.protected {
+                                    // Different texts are different values only for plain
+                                    // numbers (#<v and #129 may well be equal)
+                                    if *r != i1.dasm_operand
+                                        && is_plain_number(r)
+                                        && is_plain_number(&i1.dasm_operand)
+                                        && !i2.protected
+                                    {
                                         remove_both = true;
                                     }
                                 }
